@@ -10,6 +10,16 @@ import dataclasses
 import typing as t
 
 
+def _show(val: t.Any) -> str:
+    """Text of an offending value, for messages. Never raises (`str` of an int beyond the interpreter's digit limit does)."""
+    try:
+        return str(val)
+    except Exception:
+        if isinstance(val, int):
+            return f"<int of {val.bit_length()} bits>"
+        return f"<{type(val).__name__} which cannot be shown>"
+
+
 class ParseInterrupt(Exception):
     """
     Raised by [`Converter`][pane.converters.Converter]s to indicate that a given parsing path has failed
@@ -88,7 +98,7 @@ class WrongTypeError(ErrorNode):
         if inside_sum:
             print(f"{self.expected}", file=file)
         else:
-            print(f"Expected {self.expected}, instead got `{self.actual}` of type `{type(self.actual).__name__}`", file=file)
+            print(f"Expected {self.expected}, instead got `{_show(self.actual)}` of type `{type(self.actual).__name__}`", file=file)
         if self.info is not None:
             print(f"{indent}{self.info}", file=file)
         if self.cause is not None:
@@ -135,7 +145,7 @@ class WrongLenError(ErrorNode):
         if inside_sum:
             print(f"{self.expected} (length {len_range})", file=file)
         else:
-            print(f"Expected {self.expected} of length {len_range}, instead got `{self.actual}` of length {self.actual_len}", file=file)
+            print(f"Expected {self.expected} of length {len_range}, instead got `{_show(self.actual)}` of length {self.actual_len}", file=file)
 
 
 @dataclasses.dataclass
@@ -153,7 +163,7 @@ class ConditionFailedError(ErrorNode):
         if inside_sum:
             print(self.expected, end="", file=file)
         else:
-            print(f"Expected {self.expected}, instead got `{self.actual}`", end="", file=file)
+            print(f"Expected {self.expected}, instead got `{_show(self.actual)}`", end="", file=file)
         if self.cause is not None:
             s = f"{indent}\n".join(self.cause.format())
             print(f"\nFailed to call condition '{self.condition}':\n{indent}{s}", file=file)
@@ -193,19 +203,19 @@ class ProductErrorNode(ErrorNode):
             if not isinstance(child, ProductErrorNode) or len(child.missing) or len(child.extra):
                 # (a node which lacks fields or has unexpected ones is printed itself, to say what was expected there)
                 break
-            children: t.Dict[t.Union[str, int], ErrorNode] = {f"{field}.{k}": v for (k, v) in child.children.items()}
+            children: t.Dict[t.Union[str, int], ErrorNode] = {f"{_show(field)}.{_show(k)}": v for (k, v) in child.children.items()}
             self = ProductErrorNode(self.expected, children, self.actual)
 
         print(f"{'' if inside_sum else 'Expected '}{self.expected}", file=file)
         for (field, child) in self.children.items():
-            print(f"{indent}While parsing field '{field}':\n{indent}  ", end="", file=file)
+            print(f"{indent}While parsing field '{_show(field)}':\n{indent}  ", end="", file=file)
             child.print_error(f"{indent}  ", file=file)
 
         # (sets of names: list them in a fixed order, so the message doesn't depend on the interpreter's hash seed)
         for field in sorted(field if isinstance(field, str) else '/'.join(field) for field in self.missing):
             print(f"{indent}  Missing required field '{field}'", file=file)
 
-        for field in sorted(map(str, self.extra)):
+        for field in sorted(map(_show, self.extra)):
             print(f"{indent}  Unexpected field '{field}'", file=file)
 
 
@@ -228,7 +238,7 @@ class SumErrorNode(ErrorNode):
             print(f"{indent}- ", end="", file=file)
             child.print_error(f"{indent}  ", inside_sum=True, file=file)
             actual = getattr(child, 'actual', actual)
-        print(f"{indent}Instead got `{actual}` of type `{type(actual).__name__}`", file=file)
+        print(f"{indent}Instead got `{_show(actual)}` of type `{type(actual).__name__}`", file=file)
 
 
 __all__ = [
